@@ -1,0 +1,6 @@
+//go:build !verif
+
+package crypto
+
+// verifDerived is a no-op outside verification builds.
+func verifDerived(*SessionKey, uint64) {}
